@@ -110,6 +110,26 @@ def run(R):
             st = tag + S.enc_var(47, 0) + S.enc_var(ln, 1) + S.enc_var(3, 1) + b"$" + salt
             g.append(CS.crypt_op("rn", 0, base, st)); gi.append((tag.decode(), 10, "cost", "N=2^%d,r=3" % ln))
         groups.append(g); info.append(gi)
+    # the same for every other method with a cost parameter: neighbouring costs, same salt and phrase, must not share their hash part
+    # (seeded/C03g: bsdicrypt silently running an even count as the next odd one)
+    cbase = bytes(R.rng.randrange(0x21, 0x7f) for _ in range(10))
+    g = []; gi = []
+    def e24(v): return bytes(S.A64[(v >> (6 * k)) & 63] for k in range(4))
+    for c in ([1, 2, 3, 4, 5, 6, 7, 8, 100, 101, 724, 725, 726] if quick else list(range(1, 64)) + [100, 101, 724, 725, 726, 4095, 4096, 4097]):
+        g.append(CS.crypt_op("rn", 0, cbase, b"_" + e24(c) + b"abcd")); gi.append(("bsdicrypt", 10, "cost", "count=%d" % c))
+    for tag_, m_ in ((b"$5$", "sha256crypt"), (b"$6$", "sha512crypt")):
+        for c in ([1000, 1001, 1002, 1003, 4999, 5000, 5001] if quick else list(range(1000, 1040)) + [4999, 5000, 5001]):
+            g.append(CS.crypt_op("rn", 0, cbase, tag_ + b"rounds=%d$saltsalt" % c)); gi.append((m_, 10, "cost", "rounds=%d" % c))
+        g.append(CS.crypt_op("rn", 0, cbase, tag_ + b"saltsalt")); gi.append((m_, 10, "cost", "rounds=5000"))      # the implied default is the same cost as rounds=5000
+    for c in ([1, 2, 3, 4, 5, 24, 25] if quick else list(range(1, 40))):
+        g.append(CS.crypt_op("rn", 0, cbase, b"$sha1$%d$saltsalt$" % c)); gi.append(("sha1crypt", 10, "cost", "iterations=%d" % c))
+    for c in ([0, 1, 2, 3, 4] if quick else list(range(0, 20))):
+        g.append(CS.crypt_op("rn", 0, cbase, b"$md5,rounds=%d$saltsalt$" % c if c else b"$md5$saltsalt$")); gi.append(("sunmd5", 10, "cost", "rounds=%d" % c))
+    for c in (4, 5, 6, 7):
+        g.append(CS.crypt_op("rn", 0, cbase, b"$2b$%02d$abcdefghijklmnopqrstuu" % c)); gi.append(("bcrypt", 10, "cost", "cost=%d" % c))
+    for nch in (b"4", b"5", b"6", b"7"):
+        g.append(CS.crypt_op("rn", 0, cbase, b"$7$" + nch + b"6..../....saltsalt")); gi.append(("scrypt", 10, "cost", "N=" + nch.decode()))
+    groups.append(g); info.append(gi)
     ops, il, ml = R.run_pair_sharded(groups)
     infos = [x for gi in info for x in gi]
     diffs = compare(R, ops, il, ml, CS.proj_crypt, "perturbation stream")
@@ -145,7 +165,7 @@ def run(R):
         if kind != "cost": continue
         f = fields(line)
         if f.get("ret") == "NULL": continue
-        part = unhx(f.get("out"))[-43:]
+        part = unhx(f.get("out"))[-CS.DIGLEN.get(m, 43):]
         if (m, part) in seen_cost and seen_cost[(m, part)][0] != arg:
             bad.append((seen_cost[(m, part)][1] + " ; " + op, "%s: the settings with %s and %s (same salt, same phrase) give the same hash part" % (m, seen_cost[(m, part)][0], arg), line))
         seen_cost.setdefault((m, part), (arg, op))
